@@ -5,7 +5,7 @@ moving selections into a client field selected at the same place.
 Core Lean only.
 -/
 import IsoVerif.Lemmas.MergeMap
--- import IsoVerif.Lemmas.MergeOrder   (add when it exists)
+import IsoVerif.Lemmas.MergeOrder
 
 namespace IsoVerif.Core.Merge
 
@@ -49,6 +49,649 @@ def lselVars : LSel → List String
 def lselsVars : List LSel → List String
   | [] => []
   | s :: rest => lselVars s ++ lselsVars rest
+end
+
+
+section
+variable {p : Project} {ex : Expand}
+
+/-! ### structure of the traversal -/
+
+theorem emitSels_nil (ty : String) (c : VarCtx) (pre : List KeyK) : emitSels p ex ty c pre [] = [] := by
+  rw [emitSels]
+
+theorem emitSels_cons (ty : String) (c : VarCtx) (pre : List KeyK) (s : LSel) (l : List LSel) :
+    emitSels p ex ty c pre (s :: l) = emitSel p ex ty c pre s ++ emitSels p ex ty c pre l := by
+  rw [emitSels]
+
+theorem emitSels_append {ty : String} {c : VarCtx} {pre : List KeyK} {a b : List LSel} :
+    emitSels p ex ty c pre (a ++ b) = emitSels p ex ty c pre a ++ emitSels p ex ty c pre b := by
+  induction a with
+  | nil => simp [emitSels_nil]
+  | cons s a ih => simp [emitSels_cons, ih]
+
+theorem mem_emitSels {ty : String} {c : VarCtx} {pre : List KeyK} {l : List LSel} {e : Entry} :
+    e ∈ emitSels p ex ty c pre l ↔ ∃ s ∈ l, e ∈ emitSel p ex ty c pre s := by
+  induction l with
+  | nil => simp [emitSels_nil]
+  | cons s a ih => simp [emitSels_cons, ih]
+
+/-- the entries of a linked selection depend on its sub-selections only through the SET of their entries -/
+theorem emitSel_linked_congr {h : LHead} {ks ks' : List LSel}
+    (hk : ∀ ty c pre e, e ∈ emitSels p ex ty c pre ks ↔ e ∈ emitSels p ex ty c pre ks')
+    (ty : String) (c : VarCtx) (pre : List KeyK) (e : Entry) :
+    e ∈ emitSel p ex ty c pre (.linked h ks) ↔ e ∈ emitSel p ex ty c pre (.linked h ks') := by
+  simp only [emitSel]
+  split
+  · rfl
+  · split <;> simp only [List.mem_cons, List.mem_append, hk] 
+
+mutual
+theorem SelPerm.emit_mem {s s' : LSel} : SelPerm s s' → ∀ (ty : String) (c : VarCtx) (pre : List KeyK) (e : Entry),
+    e ∈ emitSel p ex ty c pre s ↔ e ∈ emitSel p ex ty c pre s'
+  | .scalar h => fun _ _ _ _ => Iff.rfl
+  | .linked h hk => emitSel_linked_congr (SelsPerm.emit_mem hk)
+theorem SelsPerm.emit_mem {l l' : List LSel} : SelsPerm l l' → ∀ (ty : String) (c : VarCtx) (pre : List KeyK) (e : Entry),
+    e ∈ emitSels p ex ty c pre l ↔ e ∈ emitSels p ex ty c pre l'
+  | .nil => fun _ _ _ _ => Iff.rfl
+  | .cons hs hl => fun ty c pre e => by
+    rw [emitSels_cons, emitSels_cons, List.mem_append, List.mem_append, SelPerm.emit_mem hs, SelsPerm.emit_mem hl]
+  | .swap s t l => fun ty c pre e => by
+    simp only [emitSels_cons, List.mem_append]
+    exact or_left_comm
+  | .trans h1 h2 => fun ty c pre e => (SelsPerm.emit_mem h1 ty c pre e).trans (SelsPerm.emit_mem h2 ty c pre e)
+end
+
+mutual
+theorem SelPerm.refl : (s : LSel) → SelPerm s s
+  | .scalar h => .scalar h
+  | .linked h ks => .linked h (SelsPerm.refl ks)
+theorem SelsPerm.refl : (l : List LSel) → SelsPerm l l
+  | [] => .nil
+  | s :: l => .cons (SelPerm.refl s) (SelsPerm.refl l)
+end
+
+theorem SelsPerm.of_perm {l l' : List LSel} (h : List.Perm l l') : SelsPerm l l' := by
+  induction h with
+  | nil => exact .nil
+  | cons x _ ih => exact .cons (SelPerm.refl x) ih
+  | swap x y l => exact .swap y x l
+  | trans _ _ ih1 ih2 => exact .trans ih1 ih2
+
+theorem mem_emitSet {ty : String} {c : VarCtx} {pre : List KeyK} {l : List LSel} {e : Entry} :
+    e ∈ emitSet p ex ty c pre l ↔ (e ∈ emitSels p ex ty c pre l ∨ e ∈ tailEntries p ty pre) := by
+  simp [emitSet]
+
+theorem mergeSel_perm {ty : String} {c : VarCtx} {pre : List KeyK} {m : MergedMap} {sels sels' : List LSel}
+    (hm : Sorted pathLt m) (hp : SelsPerm sels sels')
+    (hc : Coherent (emitSet p ex ty c pre sels)) :
+    insertAll pathLt m (emitSet p ex ty c pre sels) = insertAll pathLt m (emitSet p ex ty c pre sels') := by
+  apply insertAll_ext pathLt_strictTotal hm hc
+  intro e
+  rw [mem_emitSet, mem_emitSet, hp.emit_mem]
+
+theorem mergeSel_dup {ty : String} {c : VarCtx} {pre : List KeyK} {m : MergedMap}
+    (hm : Sorted pathLt m) {s : LSel} {a b : List LSel} (hs : s ∈ a ++ b)
+    (hc : Coherent (emitSet p ex ty c pre (a ++ b))) :
+    insertAll pathLt m (emitSet p ex ty c pre (a ++ s :: b)) = insertAll pathLt m (emitSet p ex ty c pre (a ++ b)) := by
+  symm
+  apply insertAll_ext pathLt_strictTotal hm hc
+  intro e
+  rw [mem_emitSet, mem_emitSet, mem_emitSels, mem_emitSels]
+  constructor
+  · rintro (⟨t, ht, he⟩ | h)
+    · refine Or.inl ⟨t, ?_, he⟩
+      simp only [List.mem_append, List.mem_cons] at ht ⊢
+      rcases ht with ht | ht
+      · exact Or.inl ht
+      · exact Or.inr (Or.inr ht)
+    · exact Or.inr h
+  · rintro (⟨t, ht, he⟩ | h)
+    · simp only [List.mem_append, List.mem_cons] at ht hs
+      rcases ht with ht | rfl | ht
+      · exact Or.inl ⟨t, by simp [ht], he⟩
+      · exact Or.inl ⟨t, by simpa using hs, he⟩
+      · exact Or.inl ⟨t, by simp [ht], he⟩
+    · exact Or.inr h
+
+
+end
+
+/-! ### locations: selections without object / list literals are the same `LSel` wherever they stand -/
+
+def noCompositeArgs (args : List (String × Value)) : Bool := args.all fun a => !isComposite a.2
+
+mutual
+/-- no argument, at any depth of the selection tree, is a non-empty object or list literal -/
+def noCompositeSel : Selection → Bool
+  | .scalar h => noCompositeArgs h.args
+  | .linked h kids => noCompositeArgs h.args && noCompositeSels kids
+def noCompositeSels : List Selection → Bool
+  | [] => true
+  | s :: rest => noCompositeSel s && noCompositeSels rest
+end
+
+theorem locSel_alias (loc : List Nat) (h : SelHead) (a : Option String) :
+    locSel loc (.scalar { h with alias := a }) = locSel loc (.scalar h) := by
+  simp only [locSel, locHead]
+
+theorem locSel_alias_linked (loc : List Nat) (h : SelHead) (a : Option String) (kids : List Selection) :
+    locSel loc (.linked { h with alias := a } kids) = locSel loc (.linked h kids) := by
+  simp only [locSel, locHead]
+
+theorem locArgs_noComposite {args : List (String × Value)} (h : noCompositeArgs args = true)
+    (loc loc' : List Nat) (i j : Nat) : locArgs loc i args = locArgs loc' j args := by
+  induction args generalizing i j with
+  | nil => rfl
+  | cons a rest ih =>
+    obtain ⟨n, v⟩ := a
+    simp only [noCompositeArgs, List.all_cons, Bool.and_eq_true, Bool.not_eq_true'] at h
+    simp only [locArgs, h.1]
+    rw [ih (by simpa [noCompositeArgs] using h.2) (i + 1) (j + 1)]
+    rfl
+
+theorem locHead_noComposite {h : SelHead} (hn : noCompositeArgs h.args = true) (loc loc' : List Nat) :
+    locHead loc h = locHead loc' h := by
+  simp only [locHead, locArgs_noComposite hn loc loc' 0 0]
+
+mutual
+theorem locSel_noComposite_aux : (s : Selection) → noCompositeSel s = true → ∀ loc loc', locSel loc s = locSel loc' s
+  | .scalar h => fun hn loc loc' => by
+    simp only [noCompositeSel] at hn
+    simp only [locSel, locHead_noComposite hn loc loc']
+  | .linked h kids => fun hn loc loc' => by
+    simp only [noCompositeSel, Bool.and_eq_true] at hn
+    simp only [locSel, locHead_noComposite hn.1 loc loc', locSels_noComposite_aux kids hn.2 loc loc' 0 0]
+theorem locSels_noComposite_aux : (l : List Selection) → noCompositeSels l = true →
+    ∀ loc loc' i j, locSels loc i l = locSels loc' j l
+  | [] => fun _ _ _ _ _ => by simp only [locSels]
+  | s :: rest => fun hn loc loc' i j => by
+    simp only [noCompositeSels, Bool.and_eq_true] at hn
+    simp only [locSels, locSel_noComposite_aux s hn.1 (loc ++ [i]) (loc' ++ [j]),
+      locSels_noComposite_aux rest hn.2 loc loc' (i + 1) (j + 1)]
+end
+
+
+theorem locSel_noComposite {s : Selection} : noCompositeSel s = true → ∀ loc loc', locSel loc s = locSel loc' s :=
+  locSel_noComposite_aux s
+
+theorem locSels_noComposite {l : List Selection} : noCompositeSels l = true →
+    ∀ loc loc' i j, locSels loc i l = locSels loc' j l :=
+  locSels_noComposite_aux l
+
+/-! ### extraction into a client field -/
+
+/-- no default value of a variable of a client field / pointer is itself a variable (in Rust a
+default is a `ConstantValue`) -/
+def DefaultsNotVar (p : Project) : Prop :=
+  ∀ nd ∈ p.decls, ∀ vd ∈ nd.2.vars, ∀ u, vd.default ≠ some (.var u)
+
+/-- `DefaultsNotVar`, executable -/
+def defaultsNotVarB (p : Project) : Bool :=
+  p.decls.all fun nd => nd.2.vars.all fun vd =>
+    match vd.default with
+    | some (.var _) => false
+    | _ => true
+
+theorem defaultsNotVarB_iff (p : Project) : defaultsNotVarB p = true ↔ DefaultsNotVar p := by
+  simp only [defaultsNotVarB, DefaultsNotVar, List.all_eq_true]
+  constructor
+  · intro h nd hnd vd hvd u hu
+    have := h nd hnd vd hvd
+    rw [hu] at this
+    cases this
+  · intro h nd hnd vd hvd
+    split
+    · next u hu => exact absurd hu (h nd hnd vd hvd u)
+    · rfl
+
+theorem findDecl_go_mem {ty name : String} {i : Nat} {d : Decl} :
+    ∀ (l : List (String × Decl)) (k : Nat), findDecl.go ty name k l = some (i, d) → ∃ f, (f, d) ∈ l
+  | [], _ => fun h => by simp [findDecl.go] at h
+  | (f, d') :: rest, k => fun h => by
+    simp only [findDecl.go] at h
+    split at h
+    · cases h
+      exact ⟨f, by simp⟩
+    · obtain ⟨f', hf⟩ := findDecl_go_mem rest (k + 1) h
+      exact ⟨f', List.mem_cons_of_mem _ hf⟩
+
+theorem findDecl_mem {p : Project} {ty name : String} {i : Nat} {d : Decl}
+    (h : findDecl p ty name = some (i, d)) : ∃ f, (f, d) ∈ p.decls :=
+  findDecl_go_mem p.decls 0 h
+
+/-! #### contexts -/
+
+theorem ctxGet_nil (v : String) : ctxGet [] v = none := rfl
+
+theorem ctxGet_cons (n : String) (x : Value × List Nat) (t : VarCtx) (v : String) :
+    ctxGet ((n, x) :: t) v = if n == v then some x else ctxGet t v := by
+  simp only [ctxGet, List.find?_cons]
+  cases n == v <;> rfl
+
+theorem ctxGet_initialCtx {vars : List VarDef} {v : String} (hv : v ∈ vars.map (·.name)) :
+    ctxGet (initialCtx vars) v = some (.var v, []) := by
+  induction vars with
+  | nil => cases hv
+  | cons d rest ih =>
+    simp only [initialCtx, List.map_cons, ctxGet_cons]
+    by_cases hd : d.name = v
+    · simp [hd]
+    · have : (d.name == v) = false := by simpa using hd
+      rw [this]
+      simp only [List.map_cons, List.mem_cons] at hv
+      rcases hv with hv | hv
+      · exact absurd hv.symm hd
+      · exact ih hv
+
+theorem substArg_var {c : VarCtx} {a : LArg} {w : String} (h : a.value = .var w) :
+    substArg c a = match ctxGet c w with
+      | some (val, site) => ⟨a.name, val, site⟩
+      | none => ⟨a.name, .null, []⟩ := by
+  simp only [substArg, h]
+  cases ctxGet c w with
+  | none => rfl
+  | some x => rfl
+
+theorem substArg_nonvar {c : VarCtx} {a : LArg} (h : ∀ w, a.value ≠ .var w) : substArg c a = a := by
+  unfold substArg
+  split
+  · next v hv => exact absurd hv (h v)
+  · rfl
+
+/-- the three contexts of an extraction: `c0` the extracted field's own initial context, `c` the
+context where it is selected, `cc` the child context made there; `V` the variables it declares -/
+structure Link (V : List String) (c0 cc c : VarCtx) : Prop where
+  init : ∀ v ∈ V, ctxGet c0 v = some (.var v, [])
+  same : ∀ v ∈ V, ctxGet cc v = ctxGet c v
+  bound : ∀ v ∈ V, (ctxGet c v).isSome
+
+section
+variable {V : List String} {c0 cc c : VarCtx}
+
+theorem Link.substArg_comp (hl : Link V c0 cc c) {a : LArg} (ha : ∀ v ∈ a.value.variables, v ∈ V) :
+    substArg cc (substArg c0 a) = substArg c a := by
+  by_cases hv : ∃ w, a.value = .var w
+  · obtain ⟨w, hw⟩ := hv
+    have hwV : w ∈ V := ha w (by simp [hw, Value.variables])
+    rw [substArg_var (c := c0) hw, hl.init w hwV]
+    rw [substArg_var (c := cc) (w := w) rfl, substArg_var (c := c) hw, hl.same w hwV]
+  · have hn : ∀ w, a.value ≠ .var w := fun w hw => hv ⟨w, hw⟩
+    rw [substArg_nonvar hn, substArg_nonvar hn, substArg_nonvar hn]
+
+theorem Link.substArgs_comp (hl : Link V c0 cc c) {args : List LArg}
+    (ha : ∀ v ∈ args.flatMap (·.value.variables), v ∈ V) :
+    substArgs cc (substArgs c0 args) = substArgs c args := by
+  simp only [Merge.substArgs, List.map_map]
+  apply List.map_congr_left
+  intro a hmem
+  exact hl.substArg_comp (fun v hv => ha v (List.mem_flatMap.2 ⟨a, hmem, hv⟩))
+
+
+/-- the value `childCtx` gives to one declared variable -/
+def hereOf (c : VarCtx) (args : List LArg) (declIdx i : Nat) (d : VarDef) : Option (Value × List Nat) :=
+  match args.find? (·.name == d.name) with
+  | some a =>
+    match firstVariable a.value with
+    | none => some (a.value, a.site)
+    | some v => ctxGet c v
+  | none =>
+    match d.default with
+    | some dv => some (dv, if isComposite dv then [1, declIdx, i] else [])
+    | none => some (.null, [])
+
+theorem childCtx_nil (c : VarCtx) (args : List LArg) (k i : Nat) : childCtx c args k i [] = some [] := rfl
+
+theorem childCtx_cons (c : VarCtx) (args : List LArg) (k i : Nat) (d : VarDef) (rest : List VarDef) :
+    childCtx c args k i (d :: rest) =
+      match hereOf c args k i d, childCtx c args k (i + 1) rest with
+      | some x, some tail => some ((d.name, x) :: tail)
+      | _, _ => none := rfl
+
+theorem firstVariable_mem {v : Value} {w : String} (h : firstVariable v = some w) : w ∈ v.variables := by
+  unfold firstVariable at h
+  exact List.mem_of_head? h
+
+theorem firstVariable_none_nonvar {v : Value} (h : firstVariable v = none) : ∀ w, v ≠ .var w := by
+  intro w hw
+  subst hw
+  simp [firstVariable, Value.variables] at h
+
+/-- how the values given to one variable under `c0` and under `c` are related -/
+def HeadRel (cc : VarCtx) (x1 x2 : Value × List Nat) : Prop :=
+  (x1 = x2 ∧ ∀ u, x1.1 ≠ .var u) ∨ (∃ v, x1 = (.var v, []) ∧ ctxGet cc v = some x2)
+
+theorem Link.hereOf_rel (hl : Link V c0 cc c) {args : List LArg}
+    (hargs : ∀ a ∈ args, ∀ v ∈ a.value.variables, v ∈ V) (k i : Nat) {d : VarDef}
+    (hd : ∀ u, d.default ≠ some (.var u)) :
+    ∃ x1 x2, hereOf c0 args k i d = some x1 ∧ hereOf c args k i d = some x2 ∧ HeadRel cc x1 x2 := by
+  cases hf : args.find? (·.name == d.name) with
+  | some a =>
+    have hmem : a ∈ args := List.mem_of_find?_eq_some hf
+    cases hfv : firstVariable a.value with
+    | none =>
+      refine ⟨(a.value, a.site), (a.value, a.site), ?_, ?_, Or.inl ⟨rfl, firstVariable_none_nonvar hfv⟩⟩
+      · simp only [hereOf, hf, hfv]
+      · simp only [hereOf, hf, hfv]
+    | some v =>
+      have hv : v ∈ V := hargs a hmem v (firstVariable_mem hfv)
+      have hb := hl.bound v hv
+      cases hx : ctxGet c v with
+      | none => rw [hx] at hb; cases hb
+      | some x2 =>
+        refine ⟨(.var v, []), x2, ?_, ?_, Or.inr ⟨v, rfl, ?_⟩⟩
+        · simp only [hereOf, hf, hfv, hl.init v hv]
+        · simp only [hereOf, hf, hfv, hx]
+        · rw [hl.same v hv, hx]
+  | none =>
+    cases hdv : d.default with
+    | none =>
+      refine ⟨(.null, []), (.null, []), ?_, ?_, Or.inl ⟨rfl, fun u hu => by cases hu⟩⟩
+      · simp only [hereOf, hf, hdv]
+      · simp only [hereOf, hf, hdv]
+    | some dv =>
+      refine ⟨(dv, if isComposite dv then [1, k, i] else []), (dv, if isComposite dv then [1, k, i] else []),
+        ?_, ?_, Or.inl ⟨rfl, fun u hu => hd u ?_⟩⟩
+      · simp only [hereOf, hf, hdv]
+      · simp only [hereOf, hf, hdv]
+      · rw [hdv]
+        exact congrArg some hu
+
+theorem substArg_cons_ne {n : String} {x : Value × List Nat} {t : VarCtx} {a : LArg}
+    (h : ∀ w, a.value = .var w → (n == w) = false) : substArg ((n, x) :: t) a = substArg t a := by
+  by_cases hv : ∃ w, a.value = .var w
+  · obtain ⟨w, hw⟩ := hv
+    rw [substArg_var hw, substArg_var hw, ctxGet_cons, h w hw]
+    rfl
+  · have hn : ∀ w, a.value ≠ .var w := fun w hw => hv ⟨w, hw⟩
+    rw [substArg_nonvar hn, substArg_nonvar hn]
+
+/-- both child contexts exist, and substituting with the one made under `c0` and then with `cc` is
+substituting with the one made under `c` -/
+theorem Link.childCtx_comp (hl : Link V c0 cc c) {args : List LArg}
+    (hargs : ∀ a ∈ args, ∀ v ∈ a.value.variables, v ∈ V) (k : Nat) :
+    ∀ (ds : List VarDef) (i : Nat), (∀ d ∈ ds, ∀ u, d.default ≠ some (.var u)) →
+      ∃ cc1 cc2, childCtx c0 args k i ds = some cc1 ∧ childCtx c args k i ds = some cc2 ∧
+        ∀ a, substArg cc (substArg cc1 a) = substArg cc2 a
+  | [], i => fun _ => by
+    refine ⟨[], [], rfl, rfl, fun a => ?_⟩
+    by_cases hv : ∃ w, a.value = .var w
+    · obtain ⟨w, hw⟩ := hv
+      rw [substArg_var hw, ctxGet_nil]
+      exact substArg_nonvar (fun w hw => by cases hw)
+    · have hn : ∀ w, a.value ≠ .var w := fun w hw => hv ⟨w, hw⟩
+      rw [substArg_nonvar hn, substArg_nonvar hn]
+  | d :: rest, i => fun hds => by
+    obtain ⟨t1, t2, ht1, ht2, ht⟩ := Link.childCtx_comp hl hargs k rest (i + 1)
+      (fun d' hd' => hds d' (List.mem_cons_of_mem _ hd'))
+    obtain ⟨x1, x2, hx1, hx2, hrel⟩ := hl.hereOf_rel hargs k i (hds d (by simp))
+    refine ⟨(d.name, x1) :: t1, (d.name, x2) :: t2, ?_, ?_, fun a => ?_⟩
+    · rw [childCtx_cons, hx1, ht1]
+    · rw [childCtx_cons, hx2, ht2]
+    · by_cases hv : ∃ w, a.value = .var w ∧ (d.name == w) = true
+      · obtain ⟨w, hw, hdw⟩ := hv
+        rw [substArg_var (c := (d.name, x1) :: t1) hw, substArg_var (c := (d.name, x2) :: t2) hw,
+          ctxGet_cons, ctxGet_cons, hdw]
+        simp only [if_true]
+        rcases hrel with ⟨rfl, hnv⟩ | ⟨v, rfl, hv⟩
+        · exact substArg_nonvar (a := ⟨a.name, x1.1, x1.2⟩) hnv
+        · rw [substArg_var (a := ⟨a.name, .var v, []⟩) (w := v) rfl, hv]
+      · have hne : ∀ w, a.value = .var w → (d.name == w) = false := by
+          intro w hw
+          cases hdw : d.name == w
+          · rfl
+          · exact absurd ⟨w, hw, hdw⟩ hv
+        rw [substArg_cons_ne hne, substArg_cons_ne hne]
+        exact ht a
+
+
+/-! #### entries -/
+
+theorem substArgs_nil (cc : VarCtx) : substArgs cc [] = [] := rfl
+
+theorem substEntry_mkEntry (cc : VarCtx) (pre keys : List KeyK) (pl : Payload) :
+    substEntry cc pre (mkEntry keys pl) = mkEntry (pre ++ keys.map (substKey cc)) (substPayload cc pl) := rfl
+
+theorem prefix_snoc (cc : VarCtx) (pre pre0 : List KeyK) (k : KeyK) :
+    pre ++ (pre0 ++ [k]).map (substKey cc) = (pre ++ pre0.map (substKey cc)) ++ [substKey cc k] := by
+  simp
+
+theorem tailEntries_subst (p : Project) (cc : VarCtx) (ty : String) (pre pre0 : List KeyK) :
+    (tailEntries p ty pre0).map (substEntry cc pre) = tailEntries p ty (pre ++ pre0.map (substKey cc)) := by
+  unfold tailEntries
+  split
+  · simp only [List.map_cons, List.map_nil, substEntry_mkEntry, prefix_snoc]
+    rfl
+  · simp only [List.map_append]
+    congr 1
+    · split
+      · rfl
+      · simp only [List.map_cons, List.map_nil, substEntry_mkEntry, prefix_snoc]
+        rfl
+    · split
+      · simp only [List.map_cons, List.map_nil, substEntry_mkEntry, prefix_snoc]
+        rfl
+      · rfl
+
+theorem substKey_comp {cc cc1 cc2 : VarCtx} (h : ∀ a, substArg cc (substArg cc1 a) = substArg cc2 a)
+    (k : KeyK) : substKey cc (substKey cc1 k) = substKey cc2 k := by
+  cases k <;> simp [substKey, substArgs, h]
+
+theorem substPayload_comp {cc cc1 cc2 : VarCtx} (h : ∀ a, substArg cc (substArg cc1 a) = substArg cc2 a)
+    (pl : Payload) : substPayload cc (substPayload cc1 pl) = substPayload cc2 pl := by
+  cases pl <;> simp [substPayload, substArgs, h]
+
+theorem substEntry_comp {cc cc1 cc2 : VarCtx} (h : ∀ a, substArg cc (substArg cc1 a) = substArg cc2 a)
+    (pre pre0 : List KeyK) (e : Entry) :
+    substEntry cc pre (substEntry cc1 pre0 e) = substEntry cc2 (pre ++ pre0.map (substKey cc)) e := by
+  simp only [substEntry, mkEntry, List.map_append, List.map_map, List.append_assoc]
+  have hk : (substKey cc ∘ substKey cc1) = substKey cc2 := funext (substKey_comp h)
+  rw [hk, substPayload_comp h]
+
+theorem Link.clientEntries_subst (hl : Link V c0 cc c) {p : Project} (hd : DefaultsNotVar p) (ex : Expand)
+    {h : LHead} (hargs : ∀ v ∈ h.args.flatMap (·.value.variables), v ∈ V)
+    (ty : String) (pre pre0 : List KeyK) :
+    (clientEntries p ex ty c0 pre0 h).map (substEntry cc pre)
+      = clientEntries p ex ty c (pre ++ pre0.map (substKey cc)) h := by
+  unfold clientEntries
+  cases hf : findDecl p ty h.name with
+  | none =>
+    simp only [List.map_cons, List.map_nil, substEntry_mkEntry, prefix_snoc]
+    rfl
+  | some id =>
+    obtain ⟨i, d⟩ := id
+    simp only []
+    cases hex : ex ty h.name with
+    | none =>
+      simp only [List.map_cons, List.map_nil, substEntry_mkEntry, prefix_snoc]
+      rfl
+    | some childMap =>
+      simp only []
+      obtain ⟨f, hmem⟩ := findDecl_mem hf
+      obtain ⟨cc1, cc2, h1, h2, hcomp⟩ := hl.childCtx_comp
+        (fun a ha v hv => hargs v (List.mem_flatMap.2 ⟨a, ha, hv⟩)) i d.vars 0
+        (fun vd hvd => hd (f, d) hmem vd hvd)
+      rw [h1, h2]
+      simp only [substMap, List.map_map]
+      apply List.map_congr_left
+      intro e _
+      exact substEntry_comp hcomp pre pre0 e
+
+
+theorem mem_lselsVars {l : List LSel} {s : LSel} (hs : s ∈ l) {v : String} (hv : v ∈ lselVars s) :
+    v ∈ lselsVars l := by
+  induction l with
+  | nil => cases hs
+  | cons t rest ih =>
+    simp only [lselsVars, List.mem_append]
+    rcases List.mem_cons.1 hs with rfl | hs
+    · exact Or.inl hv
+    · exact Or.inr (ih hs)
+
+mutual
+/-- the substitution lemma: the entries of a selection under the extracted field's initial context,
+transformed into the host, are its entries under the host's context -/
+theorem Link.emitSel_subst (hl : Link V c0 cc c) {p : Project} (hd : DefaultsNotVar p) (ex : Expand)
+    (pre : List KeyK) : (s : LSel) → (∀ v ∈ lselVars s, v ∈ V) → ∀ (ty : String) (pre0 : List KeyK),
+      (emitSel p ex ty c0 pre0 s).map (substEntry cc pre)
+        = emitSel p ex ty c (pre ++ pre0.map (substKey cc)) s
+  | .scalar h => fun hv ty pre0 => by
+    have hargs : ∀ v ∈ h.args.flatMap (·.value.variables), v ∈ V := by
+      simpa only [lselVars] using hv
+    simp only [emitSel]
+    cases hlk : lookup p ty h.name with
+    | none =>
+      simp only [List.map_cons, List.map_nil, substEntry_mkEntry, prefix_snoc]
+      rfl
+    | some sel =>
+      obtain ⟨kind, sargs, target⟩ := sel
+      cases kind <;> simp only []
+      all_goals try (simp only [List.map_cons, List.map_nil, substEntry_mkEntry, prefix_snoc, substKey, substPayload, hl.substArgs_comp hargs]; done)
+      · split <;>
+          simp only [List.map_cons, List.map_nil, substEntry_mkEntry, prefix_snoc, substKey, substPayload,
+            hl.substArgs_comp hargs]
+      · split
+        · rfl
+        · exact hl.clientEntries_subst hd ex hargs ty pre pre0
+  | .linked h kids => fun hv ty pre0 => by
+    have hargs : ∀ v ∈ h.args.flatMap (·.value.variables), v ∈ V := fun v h' => hv v (by
+      simp only [lselVars, List.mem_append]; exact Or.inl h')
+    have hkids : ∀ v ∈ lselsVars kids, v ∈ V := fun v h' => hv v (by
+      simp only [lselVars, List.mem_append]; exact Or.inr h')
+    have ih := Link.emitSels_subst hl hd ex pre kids hkids
+    simp only [emitSel]
+    cases hlk : lookup p ty h.name with
+    | none =>
+      simp only [List.map_cons, List.map_nil, substEntry_mkEntry, prefix_snoc]
+      rfl
+    | some sel =>
+      obtain ⟨kind, sargs, target⟩ := sel
+      cases kind <;> simp only []
+      all_goals
+        simp only [List.map_cons, List.map_nil, List.map_append, substEntry_mkEntry, substKey, substPayload,
+          hl.substArgs_comp hargs, tailEntries_subst, ih, hl.clientEntries_subst hd ex hargs,
+          List.append_assoc, List.cons_append, List.nil_append, substArgs_nil]
+theorem Link.emitSels_subst (hl : Link V c0 cc c) {p : Project} (hd : DefaultsNotVar p) (ex : Expand)
+    (pre : List KeyK) : (l : List LSel) → (∀ v ∈ lselsVars l, v ∈ V) → ∀ (ty : String) (pre0 : List KeyK),
+      (emitSels p ex ty c0 pre0 l).map (substEntry cc pre)
+        = emitSels p ex ty c (pre ++ pre0.map (substKey cc)) l
+  | [] => fun _ _ _ => by simp only [emitSels_nil, List.map_nil]
+  | s :: rest => fun hv ty pre0 => by
+    simp only [lselsVars, List.mem_append] at hv
+    rw [emitSels_cons, emitSels_cons, List.map_append,
+      Link.emitSel_subst hl hd ex pre s (fun v h => hv v (Or.inl h)),
+      Link.emitSels_subst hl hd ex pre rest (fun v h => hv v (Or.inr h))]
+end
+
+
+end
+
+/-! #### the call of the extracted field -/
+
+/-- the arguments of `callOf` -/
+def callArgs (vars : List VarDef) : List LArg := vars.map (fun d => ⟨d.name, .var d.name, []⟩)
+
+theorem hereOf_call (c : VarCtx) {vars : List VarDef} (k i : Nat) {d : VarDef} (hd : d ∈ vars) :
+    hereOf c (callArgs vars) k i d = ctxGet c d.name := by
+  cases hf : (callArgs vars).find? (·.name == d.name) with
+  | none =>
+    have := List.find?_eq_none.1 hf ⟨d.name, .var d.name, []⟩ (List.mem_map.2 ⟨d, hd, rfl⟩)
+    simp at this
+  | some a =>
+    have hp := List.find?_some hf
+    obtain ⟨d', _, rfl⟩ := List.mem_map.1 (List.mem_of_find?_eq_some hf)
+    have hn : d'.name = d.name := by simpa using hp
+    simp only [hereOf, hf, firstVariable, Value.variables, List.head?_cons, hn]
+
+theorem childCtx_call (c : VarCtx) (vars : List VarDef) (k : Nat) :
+    ∀ (ds : List VarDef) (i : Nat), (∀ d ∈ ds, d ∈ vars) → (∀ d ∈ ds, (ctxGet c d.name).isSome) →
+      ∃ cc, childCtx c (callArgs vars) k i ds = some cc ∧ ∀ v ∈ ds.map (·.name), ctxGet cc v = ctxGet c v
+  | [], _ => fun _ _ => ⟨[], rfl, fun v hv => by cases hv⟩
+  | d :: rest, i => fun hmem hb => by
+    obtain ⟨t, ht, hget⟩ := childCtx_call c vars k rest (i + 1)
+      (fun d' h' => hmem d' (List.mem_cons_of_mem _ h')) (fun d' h' => hb d' (List.mem_cons_of_mem _ h'))
+    have hbd := hb d (by simp)
+    cases hx : ctxGet c d.name with
+    | none => rw [hx] at hbd; cases hbd
+    | some x =>
+      refine ⟨(d.name, x) :: t, ?_, fun v hv => ?_⟩
+      · rw [childCtx_cons, hereOf_call c k i (hmem d (by simp)), hx, ht]
+      · rw [ctxGet_cons]
+        by_cases hdv : d.name = v
+        · subst hdv
+          simp [hx]
+        · have : (d.name == v) = false := by simpa using hdv
+          rw [this]
+          simp only [List.map_cons, List.mem_cons] at hv
+          rcases hv with hv | hv
+          · exact absurd hv.symm hdv
+          · simpa using hget v hv
+
+theorem link_call {c : VarCtx} {vars : List VarDef} (hbound : ∀ d ∈ vars, (ctxGet c d.name).isSome) (k : Nat) :
+    ∃ cc, childCtx c (callArgs vars) k 0 vars = some cc ∧ Link (vars.map (·.name)) (initialCtx vars) cc c := by
+  obtain ⟨cc, hcc, hget⟩ := childCtx_call c vars k vars 0 (fun _ h => h) hbound
+  refine ⟨cc, hcc, ⟨fun v hv => ctxGet_initialCtx hv, hget, fun v hv => ?_⟩⟩
+  obtain ⟨d, hd, rfl⟩ := List.mem_map.1 hv
+  exact hbound d hd
+
+section
+variable {p : Project} {ex : Expand}
+
+theorem emitSel_callOf {ty name : String} {vars : List VarDef} {body : List LSel}
+    (hx : Extracted p ex ty name vars body) (c : VarCtx) (pre : List KeyK) (i : Nat) (d : Decl)
+    (hf : findDecl p ty name = some (i, d)) (hdv : d.vars = vars) {cc : VarCtx}
+    (hcc : childCtx c (callArgs vars) i 0 vars = some cc) :
+    emitSel p ex ty c pre (callOf name vars)
+      = substMap cc pre (buildMap (emitSet p ex ty (initialCtx vars) [] body)) := by
+  simp only [callOf, emitSel, hx.lookup_eq, hasDir, List.any_nil, clientEntries, hf, hx.expand_eq, hdv]
+  change (match childCtx c (callArgs vars) i 0 vars with
+    | none => _
+    | some cc => _) = _
+  rw [hcc]
+  rfl
+
+/-- C15, extraction -/
+theorem mergeSel_extract {ty name : String} {vars : List VarDef} {body a b : List LSel} {c : VarCtx}
+    {pre : List KeyK} {m : MergedMap}
+    (hm : Sorted pathLt m) (hx : Extracted p ex ty name vars body) (hd : DefaultsNotVar p)
+    (hvars : ∀ v ∈ lselsVars body, v ∈ vars.map (·.name))
+    (hbound : ∀ d ∈ vars, (ctxGet c d.name).isSome)
+    (hcb : Coherent (emitSet p ex ty (initialCtx vars) [] body))
+    (hc : Coherent (emitSet p ex ty c pre (a ++ body ++ b))) :
+    insertAll pathLt m (emitSet p ex ty c pre (a ++ callOf name vars :: b))
+      = insertAll pathLt m (emitSet p ex ty c pre (a ++ body ++ b)) := by
+  obtain ⟨i, d, hf, hdv⟩ := hx.decl
+  obtain ⟨cc, hcc, hl⟩ := link_call hbound i
+  symm
+  apply insertAll_ext pathLt_strictTotal hm hc
+  intro e
+  have hcall : ∀ e, e ∈ emitSel p ex ty c pre (callOf name vars) ↔ e ∈ emitSet p ex ty c pre body := by
+    intro e
+    rw [emitSel_callOf hx c pre i d hf hdv hcc, substMap, List.mem_map]
+    have himg : (emitSet p ex ty (initialCtx vars) [] body).map (substEntry cc pre) = emitSet p ex ty c pre body := by
+      rw [emitSet, List.map_append, hl.emitSels_subst hd ex pre body hvars ty [], tailEntries_subst]
+      simp only [List.map_nil, List.append_nil]
+      rfl
+    rw [← himg, List.mem_map]
+    constructor
+    · rintro ⟨e0, he0, rfl⟩
+      exact ⟨e0, (mem_build_iff pathLt_strictTotal hcb e0).1 he0, rfl⟩
+    · rintro ⟨e0, he0, rfl⟩
+      exact ⟨e0, (mem_build_iff pathLt_strictTotal hcb e0).2 he0, rfl⟩
+  simp only [mem_emitSet, emitSels_append, emitSels_cons, List.mem_append, hcall]
+  constructor
+  · rintro (((h | h) | h) | h)
+    · exact Or.inl (Or.inl h)
+    · exact Or.inl (Or.inr (Or.inl (Or.inl h)))
+    · exact Or.inl (Or.inr (Or.inr h))
+    · exact Or.inr h
+  · rintro ((h | (h | h) | h) | h)
+    · exact Or.inl (Or.inl (Or.inl h))
+    · exact Or.inl (Or.inl (Or.inr h))
+    · exact Or.inr h
+    · exact Or.inl (Or.inr h)
+    · exact Or.inr h
+
 end
 
 end IsoVerif.Core.Merge
